@@ -1,5 +1,6 @@
 """C15 — all LinearMatrix back ends compute the same Gaussian likelihood."""
 import math
+import copy
 import pickle
 import random
 
@@ -70,7 +71,8 @@ def run(tier, seed):
     thorough = tier == "thorough"
     findings = []
     st = Suite("C15.backends", "the dispatching LinearMatrix wrapper and the four concrete classes x dense/sparse G x scalar/per-datum/full covariance x "
-               "premultiplication in {True, False, None} x float32/float64 x pickle round trip, under-/over-/exactly determined shapes: misfit(), gradient(), "
+               "premultiplication in {True, False, None} x float32/float64 x histories of update_bounds / pickle / dill / copy / deepcopy round trips (bounds before or after, on the "
+               "dispatcher or on the wrapped back end), under-/over-/exactly determined shapes: misfit(), gradient(), "
                "forward() and bounds vs the float64 Lean reference; non-trivial = non-square G")
     reqs, metas = [], []
     for _ in range(1500 if thorough else 400):
@@ -82,12 +84,34 @@ def run(tier, seed):
             continue
         nd, nm = G.shape
         m = np.array([[rnd.gauss(0, 1)] for _ in range(nm)])
-        pickled = rnd.random() < 0.3
-        if pickled:
-            obj = pickle.loads(pickle.dumps(obj))
-            desc = dict(desc, pickled=True)
+        # history of the object before it is evaluated: bounds may be set before or after any number of pickle / copy round trips,
+        # on the object itself or (dispatcher) on the concrete back end it wraps
+        hist = rnd.choice([["bounds"], ["bounds"], ["pickle", "bounds"], ["bounds", "pickle"], ["bounds", "deepcopy"], ["bounds", "copy"],
+                           ["bounds", "pickle", "deepcopy"], ["deepcopy", "bounds", "pickle"], ["bounds", "dill"]])
+        bounds_on = "inner" if (desc["via"] == "wrapper" and rnd.random() < 0.4) else "self"
+        desc = dict(desc, history=hist, bounds_on=bounds_on)
         obs = {}
+        lo = np.array([[-0.5] for _ in range(nm)])
+        hi = np.array([[0.5] for _ in range(nm)])
         with quiet(), np.errstate(all="ignore"):
+            try:
+                for op in hist:
+                    if op == "bounds":
+                        (obj.Distribution if bounds_on == "inner" and hasattr(obj, "Distribution") else obj).update_bounds(lo.copy(), hi.copy())
+                    elif op == "pickle":
+                        obj = pickle.loads(pickle.dumps(obj))
+                    elif op == "dill":
+                        import dill
+
+                        obj = dill.loads(dill.dumps(obj))
+                    elif op == "deepcopy":
+                        obj = copy.deepcopy(obj)
+                    else:
+                        obj = copy.copy(obj)
+            except Exception as e:
+                obs["history_error"] = repr(e)
+            # inside the box the bounded misfit is the unbounded one: evaluate at a point inside
+            m = np.clip(m, -0.45, 0.45)
             for name, fn in (("misfit", lambda: float(obj.misfit(m.astype(dtype)))), ("gradient", lambda: np.array(obj.gradient(m.astype(dtype)), dtype=float)),
                              ("forward", lambda: np.array(obj.forward(m.astype(dtype)), dtype=float) if hasattr(obj, "forward") else None)):
                 try:
@@ -95,12 +119,9 @@ def run(tier, seed):
                 except Exception as e:
                     obs[name] = repr(e)
             # bounds add +inf outside the box
-            lo = np.array([[-0.5] for _ in range(nm)])
-            hi = np.array([[0.5] for _ in range(nm)])
             try:
-                obj.update_bounds(lo, hi)
                 xo = m.copy()
-                xo[0, 0] = 3.0
+                xo[rnd.randrange(nm), 0] = rnd.choice([3.0, -3.0, 0.5000001])
                 obs["outside"] = float(obj.misfit(xo.astype(dtype)))
                 xi = np.zeros((nm, 1))
                 obs["inside_finite"] = math.isfinite(float(obj.misfit(xi.astype(dtype))))
@@ -111,6 +132,7 @@ def run(tier, seed):
         st.count(f"{'sparse' if desc['sparse'] else 'dense'}/{desc['covariance']}")
         st.count(f"premultiplication={desc['premultiplication']}")
         st.count(f"dtype={desc['dtype']}")
+        st.count("history=" + ">".join(desc["history"]))
         Winv = np.linalg.inv(C)
         U = np.linalg.cholesky(Winv).T
         reqs.append(f"c15.eval {mhex(G)} {nm} {vhex(d)} {mhex(Winv)} {mhex(U)} {vhex(m)}")
@@ -125,6 +147,8 @@ def run(tier, seed):
         if not (common.close(pm, spec, 1e-9, 1e-9 * sc) and common.close(fm, spec, 1e-9, 1e-9 * sc) and common.vclose(pg, sgrad, 1e-9, 1e-9 * sc)):
             st.disagree(stim, {"spec": spec}, {"premultiplied": pm, "factor": fm}, "model forms disagree among themselves")
             continue
+        if "history_error" in obs:
+            problems.append(f"history {desc['history']} raised {obs['history_error']}")
         if isinstance(obs["misfit"], str) or not common.close(obs["misfit"], spec, tol, tol * sc):
             problems.append(f"misfit = {obs['misfit']!r}, expected ½(Gm-d)ᵀC⁻¹(Gm-d) = {spec!r}")
         if isinstance(obs["gradient"], str) or np.shape(obs["gradient"]) != (nm, 1) or not common.vclose(sgrad, obs["gradient"], tol, tol * sc):
